@@ -77,6 +77,15 @@ def in_domain(kind, h, level, y, z):
 
 def scale(kind, h, level, y, z):
     """magnitude of the largest term of the formula (for tolerances)"""
+    v = _scale(kind, h, level, y, z)
+    m = max(abs(y), abs(z))
+    if 0 < m < 1e-6 and effective(kind, h, level)[0] != "logloss":
+        # small units: the additive 1 would hide everything; use the homogeneous magnitude only
+        return max(v - 1.0, 1e-300)
+    return v
+
+
+def _scale(kind, h, level, y, z):
     fam, h, _ = effective(kind, h, level)
     try:
         if fam == "logloss":
@@ -99,7 +108,8 @@ def scale(kind, h, level, y, z):
 
 
 def far_enough(y, z):
-    return y == z or abs(z - y) >= 2.0**-10 * max(abs(y), abs(z), 1.0)
+    m = max(abs(y), abs(z))
+    return y == z or abs(z - y) >= 2.0**-10 * (m if 0 < m < 1e-6 else max(m, 1.0))
 
 
 def gen_value(rng, positive=False, unit=False):
@@ -114,6 +124,8 @@ def gen_value(rng, positive=False, unit=False):
         v = rng.choice([1e-3, 0.5, 1.0, 2.0, 10.0, 100.0, 1234.5])
     else:
         v = round(rng.uniform(0.01, 50), 3)
+    if rng.random() < 0.06:
+        v = v * 2.0**-33  # small units: no absolute tolerance may be applied anywhere
     if not positive and rng.random() < 0.35:
         v = -v
     return v
